@@ -77,6 +77,14 @@ Theorem C05_decode_encode_roundtrip : forall recs z,
 Proof. exact decode_all_roundtrip. Qed.
 Print Assumptions C05_decode_encode_roundtrip.
 
+(* the same across a directory of segment files: cut() closes a segment exactly at its written length and
+   starts the next one with the running crc; the decoder walks all of them and returns every record *)
+Theorem C05_decode_segments_roundtrip : forall segs z,
+  segs_ok segs -> segs <> [] -> (z = 0 \/ 8 <= z) ->
+  decode_all (app_last (encode_segs 0 segs) (zeros z)) = (stored_segs 0 segs, None, last_len 0 segs).
+Proof. exact decode_all_segments. Qed.
+Print Assumptions C05_decode_segments_roundtrip.
+
 (* ---------- synced ⊑ p: what was encoded before a point survives ANY damage behind it ---------- *)
 Theorem C05_synced_prefix_survives : forall recs junk,
   Forall enc_ok recs ->
@@ -123,6 +131,20 @@ Theorem C05_damaged_frame_stops_decoding : forall recs1 x junk,
             /\ verdict_ok v.
 Proof. exact damaged_frame_stops_decoding. Qed.
 Print Assumptions C05_damaged_frame_stops_decoding.
+
+(* (e) a single inverted bit inside the Data of any record (entry, hard state, snapshot marker, metadata) is
+   always detected: decoding stops with an error at that record and never returns the altered record.
+   (Flips in the Type byte are NOT detected — see C05_full_refuted_bitflip; flips in length fields, tags and
+   varints change the framing and are covered by the correspondence check only.) *)
+Theorem C05_bitflip_in_data_detected : forall recs1 ty p b k q t,
+  Forall enc_ok recs1 -> enc_ok (ty, Some (p ++ b :: q)) -> ty <> c_crcType -> k < 8 ->
+  let crc1 := snd (encode_all 0 recs1) in
+  let n := blen (payload_of crc1 (ty, Some (p ++ b :: q))) in
+  exists e, decode_all [fst (encode_all 0 recs1) ++
+                        le64 (frame_len_field n) ++ (flipped_payload crc1 ty p b k q ++ zeros (frame_pad n)) ++ t]
+            = (stored 0 recs1, Some e, blen (fst (encode_all 0 recs1))).
+Proof. exact data_bitflip_detected. Qed.
+Print Assumptions C05_bitflip_in_data_detected.
 
 (* ---------- Repair ---------- *)
 (* on the last file Repair does exactly what the decoder's verdict says: nothing at a clean end, truncate
